@@ -44,6 +44,15 @@ pub(crate) fn nth(mut args: ArgumentResult, visitor: &mut Visitor) -> SassResult
     }))
 }
 
+/// An empty map is the empty list `()`, which has no separator of its own
+fn map_separator(m: &SassMap) -> ListSeparator {
+    if m.is_empty() {
+        ListSeparator::Undecided
+    } else {
+        ListSeparator::Comma
+    }
+}
+
 pub(crate) fn list_separator(mut args: ArgumentResult, visitor: &mut Visitor) -> SassResult<Value> {
     args.max_args(1)?;
     Ok(Value::String(
@@ -61,7 +70,10 @@ pub(crate) fn set_nth(mut args: ArgumentResult, visitor: &mut Visitor) -> SassRe
             ListSeparator::Comma,
             Brackets::None,
         ),
-        Value::Map(m) => (m.as_list(), ListSeparator::Comma, Brackets::None),
+        Value::Map(m) => {
+            let sep = map_separator(&m);
+            (m.as_list(), sep, Brackets::None)
+        }
         v => (vec![v], ListSeparator::Undecided, Brackets::None),
     };
     let index = args
@@ -104,7 +116,10 @@ pub(crate) fn append(mut args: ArgumentResult, visitor: &mut Visitor) -> SassRes
     args.max_args(3)?;
     let (mut list, sep, brackets) = match args.get_err(0, "list")? {
         Value::List(v, sep, b) => (v, sep, b),
-        Value::Map(m) => (m.as_list(), ListSeparator::Comma, Brackets::None),
+        Value::Map(m) => {
+            let sep = map_separator(&m);
+            (m.as_list(), sep, Brackets::None)
+        }
         v => (vec![v], ListSeparator::Undecided, Brackets::None),
     };
     let val = args.get_err(1, "val")?;
@@ -150,12 +165,18 @@ pub(crate) fn join(mut args: ArgumentResult, visitor: &mut Visitor) -> SassResul
     args.max_args(4)?;
     let (mut list1, sep1, brackets) = match args.get_err(0, "list1")? {
         Value::List(v, sep, brackets) => (v, sep, brackets),
-        Value::Map(m) => (m.as_list(), ListSeparator::Comma, Brackets::None),
+        Value::Map(m) => {
+            let sep = map_separator(&m);
+            (m.as_list(), sep, Brackets::None)
+        }
         v => (vec![v], ListSeparator::Undecided, Brackets::None),
     };
     let (list2, sep2) = match args.get_err(1, "list2")? {
         Value::List(v, sep, ..) => (v, sep),
-        Value::Map(m) => (m.as_list(), ListSeparator::Comma),
+        Value::Map(m) => {
+            let sep = map_separator(&m);
+            (m.as_list(), sep)
+        }
         v => (vec![v], ListSeparator::Undecided),
     };
     let sep = match args.default_arg(
